@@ -54,7 +54,8 @@ impl Op {
     }
     /// pages marked (in order) / reset by this op; ranges are in bytes, `page` bytes per page
     fn marks(&self, page: usize) -> Vec<usize> {
-        let span = |s: usize, l: usize| if l == 0 { vec![] } else { (s / page..=(s + l - 1) / page).collect() };
+        // (capped far above any bitmap of the harnesses: ranges may run to usize::MAX)
+        let span = |s: usize, l: usize| if l == 0 { vec![] } else { (s / page..=(s.saturating_add(l - 1) / page).min(4096)).collect() };
         match self {
             Op::SetBit(p) => vec![*p],
             Op::SetRange(s, l) => span(*s, *l),
@@ -66,7 +67,7 @@ impl Op {
     fn resets(&self, page: usize) -> Vec<usize> {
         match self {
             Op::ResetBit(p) => vec![*p],
-            Op::ResetRange(s, l) if *l > 0 => (*s / page..=(*s + *l - 1) / page).collect(),
+            Op::ResetRange(s, l) if *l > 0 => (*s / page..=(s.saturating_add(*l - 1) / page).min(4096)).collect(),
             _ => vec![],
         }
     }
@@ -542,6 +543,19 @@ fn harnesses(tier: Tier) -> Vec<Harness> {
     v.push(hg("partial-last-page-premarked-harvest-vs-reset", 66, 5, 1, vec![65, 64], vec![vec![Harvest], vec![ResetRange(64 * 5, 5), SetBit(65)]]));
     v.push(hg("partial-single-page-mark-vs-harvest-vs-clone", 1, 4096, 4000, vec![], vec![vec![SetRange(10, 50)], vec![Harvest], vec![Clone]]));
     v.push(hg("whole-pages-wide-mark-vs-harvest", 65, 7, 0, vec![], vec![vec![SetRange(63 * 7 + 6, 2), SetBit(0)], vec![Harvest]]));
+    // marks and resets that run past the end of a bitmap whose page count is not a multiple of
+    // 64: the harvest reports existing pages only, a clone holds existing pages only
+    // (the library visits every page of the range, existing or not, and each visit is a
+    // scheduling point: preemption-bounded)
+    v.push(h("mark-past-the-end-vs-harvest", vec![vec![SetRange(128, 64)], vec![Harvest]], Some(2)));
+    v.push(h("mark-past-the-end-vs-harvest-vs-clone", vec![vec![SetRange(127, 66)], vec![Harvest], vec![Clone]], Some(2)));
+    v.push(hi("reset-past-the-end-vs-mark", vec![129, 3], vec![vec![ResetRange(128, 70)], vec![SetBit(129), SetBit(1)]], Some(2)));
+    let mut w = hg("wide-pages-mark-past-the-end-vs-harvest", 70, 128, 111, vec![], vec![vec![SetRange(64 * 128, 64 * 128)], vec![Harvest, Harvest]]);
+    w.bound = Some(2);
+    v.push(w);
+    let mut w = hg("nine-pages-mark-all-vs-harvest", 9, 1, 0, vec![], vec![vec![SetRange(0, 64), SetBit(8)], vec![Harvest]]);
+    w.bound = Some(2);
+    v.push(w);
     if tier.thorough() {
         v.push(h(
             "3x2-ops-mark-harvest",
